@@ -156,7 +156,7 @@ func ruleC20(c *Ctx) {
 		if !errIsNonNilOnTrue {
 			tsucc = errIf.Block().Succs[1]
 		}
-		back := tsucc == tokBlock || reaches(tsucc, tokBlock)
+		back := tsucc == tokBlock || reachesFlagAware(errIf.Block(), tsucc, tokBlock)
 		c.check(!back, "LOOPEXIT", "Token error leaves the loop", tok.Pos(),
 			"no path from the err != nil branch returns to the Token call",
 			"a path from the `err != nil` branch of Token() re-enters the loop: a sticky decoder error (truncated/malformed input) is re-read forever, the consumer is blocked and the channels are never closed")
